@@ -365,10 +365,13 @@ class ParseMachine(StateMachine):
             msg = "Completing current flag {} before moving on"
             debug(msg.format(self.flag))
         # Barf if we needed a value and didn't get one
+        # (Judged by whether *this occurrence* of the flag was handed a value:
+        # the argument itself may already hold one - from an earlier occurrence,
+        # a positional, or, for list types, its initial empty list.)
         if (
             self.flag
             and self.flag.takes_value
-            and self.flag.raw_value is None
+            and not self.flag_got_value
             and not self.flag.optional
         ):
             err = "Flag {!r} needed value and was not given one!"
